@@ -15,7 +15,7 @@ SYNTH = [
     "numa:3(memory=4096) pu:1",
     "pack:1 pu:1",
     "pack:2 [numa(memory=1000)] [numa(memory=2000)] core:2 pu:1",
-    "group:2 numa:1 l2:1 l1i:1 pu:2",
+    "group:2 pack:2 l2:1 l1i:1 pu:1",
 ]
 XMLS = ["tests/hwloc/xml/24em64t-2n6c2t-pci.xml", "tests/hwloc/xml/8intel64-4n2t-memattrs.xml",
         "tests/hwloc/xml/16-2gr2gr2n2c+misc.xml", "tests/hwloc/xml/16amd64-4distances.xml"]
@@ -95,13 +95,18 @@ def setup_edits(rng, st, rich):
         k = rng.choice(st.keys)
         out.append("a misc %d %d %s" % (k[0], k[1], hx("m")))
     if rng.random() < 0.12:
-        out.append("a dist %d %d %d" % (rng.choice([1, 2]), rng.choice([1, 2]), rng.randint(0, 3)))
+        out.append("a dist %d %d %d" % (rng.choice([1, 2]), rng.choice([5, 6, 9, 10]), rng.randint(0, 3)))
     if rng.random() < 0.05:
-        out.append("a disthet 1 2 1 %d" % rng.randint(0, 3))
+        out.append("a disthet 1 2 %d %d" % (rng.choice([5, 6]), rng.randint(0, 3)))
     if rng.random() < 0.12:
         out.append("a mattr 2 0 1 0 %d" % rng.randint(1, 9))
     if rng.random() < 0.08:
         out.append("a cpukind 1 %d" % rng.randint(0, 3))
+    if rng.random() < 0.08:
+        out.append("a mattrreg %s %d" % (hx("Cust"), rng.choice([1, 2, 5])))
+        out.append("a mattr 8 0 %s %d" % ("-100 0" if rng.random() < 0.5 else "1 0", rng.randint(1, 9)))
+    if rng.random() < 0.05:
+        out.append("a cpukindi 2 1 %s %s" % (hx("K"), hx("v")))
     return out
 
 
@@ -127,7 +132,27 @@ def nonrepr_edit(rng, st):
     k = rng.choice(st.keys)
     o = st.o[k]
     c = rng.choice(["infoadd", "infodel", "infoname", "misc", "restrict", "osindex", "subtype", "allowclr",
-                    "nameunset", "nameset", "cachesize", "tinfoadd", "tinfodel", "cpukind", "dist", "mattr", "mattr2", "memraw"])
+                    "nameunset", "nameset", "cachesize", "tinfoadd", "tinfodel", "cpukind", "dist", "mattr", "mattr2", "memraw",
+                    "attrpoke", "tinfoname", "mattrreg", "mattrsame", "mattro", "distsub", "cpukindi", "allownodeclr"])
+    if c == "attrpoke":
+        cand = [q for q in st.keys if st.o[q]["type"] in (5, 6, 7, 8, 9, 10, 11, 12, 13, 16, 17, 18)]
+        if cand:
+            q = rng.choice(cand)
+            return "b attrpoke %d %d %d %d" % (q[0], q[1], rng.randint(0, 3), rng.randint(1, 255))
+    if c == "tinfoname":
+        return "b tinfoname %d %s" % (rng.randint(0, 3), hx("Renamed"))
+    if c == "mattrreg":
+        return "b mattrreg %s %d" % (hx("Extra"), rng.choice([1, 2, 5, 6]))
+    if c == "mattrsame":
+        return "b mattr 2 0 1 0 %d" % rng.randint(1000, 1009)
+    if c == "mattro":
+        return "b mattro 2 0 %d 0 %d" % (rng.choice([1, 2]), rng.randint(1, 9))
+    if c == "distsub":
+        return "b distsub 1 %d %d %d 2" % (rng.choice([5, 6, 9, 10]), rng.randint(0, 3), rng.randint(0, 1))
+    if c == "cpukindi":
+        return "b cpukindi %x %d %s %s" % (rng.choice([1, 2, 3]), rng.randint(0, 2), hx("K"), hx(rng.choice(VALS)))
+    if c == "allownodeclr":
+        return "b allownodeclr 0"
     if c == "infoadd":
         return "b infoadd %d %d %s %s" % (k[0], k[1], hx(rng.choice(NAMES)), hx(rng.choice(VALS)))
     if c == "infodel" and o["infos"]:
@@ -157,7 +182,7 @@ def nonrepr_edit(rng, st):
     if c == "cpukind":
         return "b cpukind 1 2"
     if c == "dist":
-        return "b dist 1 1 %d" % rng.randint(0, 3)
+        return "b dist 1 %d %d" % (rng.choice([5, 6, 9, 10]), rng.randint(0, 3))
     if c == "mattr":
         return "b mattr 2 0 1 1 %d" % rng.randint(1, 9)
     if c == "mattr2":
@@ -244,10 +269,29 @@ def hand_list(rng, st0, nbl_guess):
     return lines
 
 
+# pairs of independently loaded topologies: different shapes at the same position
+TOPO_PAIRS = [
+    ("pack:1 [numa] pu:2", "pack:1 [numa(memorysidecachesize=1MB)] pu:2"),
+    ("pack:1 core:1 pu:2", "pack:1 pu:2"),
+    ("pack:1 [numa] core:2 [numa] pu:1", "pack:1 [numa] [numa] [numa] core:2 pu:1"),
+    ("pack:2 pu:2", "pack:2 pu:2"),
+    ("pack:2 pu:2", "numa:2 pu:2"),
+    ("pack:2 l2:1 pu:2", "pack:2 l2:1(size=12345) pu:2"),
+    ("group:2 pu:2", "pack:2 pu:2"),
+    ("pack:2 pu:2", "pack:2 pu:3"),
+    ("numa:2(memory=1000) pu:2", "numa:2(memory=2000) pu:2"),
+]
+
+
 def gen_case(rng, name, topo, objs, nbl_guess, kind):
     st = State(objs)
-    lines = ["case " + name, "xmlbackend %d" % rng.randint(0, 1), topo]
+    lines = ["case " + name, "xmlbackend %d %d" % (rng.randint(0, 1), rng.randint(0, 1)), topo]
     lines += setup_edits(rng, st, rich=True)
+    if kind in ("pair", "both") and rng.random() < 0.06:
+        ta, tb = rng.choice(TOPO_PAIRS)
+        if rng.random() < 0.5:
+            ta, tb = tb, ta
+        return ["case " + name, "xmlbackend %d" % rng.randint(0, 1), "topo synthetic " + ta, "topob synthetic " + tb, "build", "end"]
     if kind in ("pair", "both"):
         nb = rng.randint(0, 5)
         p_non = rng.choice([0.0, 0.0, 0.3, 1.0])
@@ -333,4 +377,57 @@ def xml_cases(rng, base, tier):
         for ln, lv in [(300, 5000), (2000, 16000), (9000, 9000)]:
             cases.append(["case xml-e%d-i%d-esc%d-%d" % (e, i, ln, lv), "xmlbackend %d %d" % (e, i), XML_TOPO, "xmlhand 2",
                           "D a 1 0 info @%d:e @%d:e @%d" % (ln, lv, lv), "D a 1 1 name - @%d @%d:e" % (lv, ln), "end"])
+    return cases
+
+
+# ---- documents for the diff importer: (name, document, expected rc, expected number of entries) ----
+_HDR = '<?xml version="1.0" encoding="UTF-8"?>\n<!DOCTYPE topologydiff SYSTEM "hwloc2-diff.dtd">\n'
+_E_NAME = ' <diff type="0" obj_depth="1" obj_index="0" obj_attr_type="1" obj_attr_oldvalue="a" obj_attr_newvalue="b"/>\n'
+_E_INFO = ' <diff type="0" obj_depth="1" obj_index="0" obj_attr_type="2" obj_attr_name="K" obj_attr_oldvalue="a" obj_attr_newvalue="b"/>\n'
+_E_SIZE = ' <diff type="0" obj_depth="-3" obj_index="1" obj_attr_type="0" obj_attr_index="0" obj_attr_oldvalue="0x10" obj_attr_newvalue="18446744073709551615"/>\n'
+
+
+def _doc(body, root='<topologydiff refname="r&amp;1">\n', close="</topologydiff>\n", hdr=_HDR):
+    return hdr + root + body + close
+
+
+def xml_documents():
+    """what the importer does with well-formed and malformed diff documents (hwloc__xml_import_diff_one:
+    an unknown attribute or tag rejects the document, an entry lacking a mandatory attribute or of another
+    type is skipped)"""
+    return [
+        ("valid3", _doc(_E_NAME + _E_INFO + _E_SIZE), 0, 3),
+        ("norefname", _doc(_E_NAME, root="<topologydiff>\n"), 0, 1),
+        ("empty-list", _doc(""), 0, 0),
+        ("unknown-attr", _doc(' <diff type="0" obj_depth="1" obj_index="0" obj_attr_type="1" bogus="1" obj_attr_oldvalue="a" obj_attr_newvalue="b"/>\n'), -1, 0),
+        ("missing-depth", _doc(' <diff type="0" obj_index="0" obj_attr_type="1" obj_attr_oldvalue="a" obj_attr_newvalue="b"/>\n' + _E_NAME), 0, 1),
+        ("missing-newvalue", _doc(' <diff type="0" obj_depth="1" obj_index="0" obj_attr_type="1" obj_attr_oldvalue="a"/>\n' + _E_NAME), 0, 1),
+        ("info-without-name", _doc(' <diff type="0" obj_depth="1" obj_index="0" obj_attr_type="2" obj_attr_oldvalue="a" obj_attr_newvalue="b"/>\n' + _E_INFO), 0, 1),
+        ("toocomplex-entry", _doc(' <diff type="1" obj_depth="1" obj_index="0"/>\n' + _E_NAME), 0, 1),
+        ("other-type", _doc(' <diff type="7"/>\n' + _E_NAME), 0, 1),
+        ("no-type", _doc(' <diff obj_depth="1"/>\n' + _E_NAME), 0, 1),
+        ("unknown-tag", _doc(_E_NAME + " <other/>\n"), -1, 0),
+        ("wrong-root", _doc(_E_NAME, root='<topology version="2.0">\n', close="</topology>\n"), -1, 0),
+        ("wrong-doctype", _doc(_E_NAME, hdr='<?xml version="1.0" encoding="UTF-8"?>\n<!DOCTYPE topology SYSTEM "hwloc2.dtd">\n'), None, None),
+        ("no-doctype", _doc(_E_NAME, hdr='<?xml version="1.0" encoding="UTF-8"?>\n'), None, None),
+        ("truncated", _doc(_E_NAME + _E_INFO)[:-30], -1, 0),
+        ("unterminated-tag", _HDR + '<topologydiff refname="r"', -1, 0),
+        ("not-xml", "hello", -1, 0),
+        ("empty", "", -1, 0),
+        ("nested-child", _doc(' <diff type="0" obj_depth="1" obj_index="0" obj_attr_type="1" obj_attr_oldvalue="a" obj_attr_newvalue="b"><x/></diff>\n'), None, None),
+        ("text-content", _doc(" <diff type=\"0\" obj_depth=\"1\" obj_index=\"0\" obj_attr_type=\"1\" obj_attr_oldvalue=\"a\" obj_attr_newvalue=\"b\">text</diff>\n"), None, None),
+        ("escapes", _doc(' <diff type="0" obj_depth="1" obj_index="0" obj_attr_type="1" obj_attr_oldvalue="&lt;&amp;&quot;&gt;&#10;&#9;" obj_attr_newvalue="x y"/>\n'), 0, 1),
+        ("empty-value", _doc(' <diff type="0" obj_depth="1" obj_index="0" obj_attr_type="1" obj_attr_oldvalue="a" obj_attr_newvalue=""/>\n'), 0, 1),
+        ("special-depth", _doc(' <diff type="0" obj_depth="-7" obj_index="5" obj_attr_type="2" obj_attr_name="N" obj_attr_oldvalue="a" obj_attr_newvalue="b"/>\n'), 0, 1),
+        # an entry with an unknown obj_attr_type is accepted by the importer (apply rejects it); it does not survive a re-export
+        ("unknown-attr-type", _doc(' <diff type="0" obj_depth="1" obj_index="0" obj_attr_type="9" obj_attr_oldvalue="a" obj_attr_newvalue="b"/>\n'), 0, None),
+    ]
+
+
+def xmlload_cases():
+    cases = []
+    for imp in (0, 1):
+        for name, doc, rc, n in xml_documents():
+            cases.append(["case xmlload-i%d-%s" % (imp, name), "xmlbackend %d %d" % (imp, imp)] + (["xmlverbose"] if name.startswith(("unknown", "missing", "info-without", "wrong", "no-doctype")) else []) + [XML_TOPO,
+                          "xmlload %d s%s" % (len(doc), doc.encode().hex()), "end"])
     return cases
